@@ -276,9 +276,9 @@ package expand
 //@ loop 1 invariant [only-last-open] all(k, 0, len(fpos), k == len(fpos)-1 || fpos[k].end != -1)
 //@ loop 1 invariant [starts-ordered] all(k, 0, len(fpos), fpos[k].start <= fpos[len(fpos)-1].start)
 //@ loop 1 invariant [last-open-iff-infield] implies(len(fpos) > 0, iff(infield, fpos[len(fpos)-1].end == -1))
-//@ loop 1 invariant [disjoint] all(k, 0, len(fpos)-1, fpos[k].end <= fpos[k+1].start)
+//@ loop 1 invariant [disjoint] all(k, 1, len(fpos), fpos[k-1].end <= fpos[k].start && fpos[k-1].end != -1)
 //@ loop 2 invariant [trim-left-keeps-field] 0 <= lo && lo <= fpos[0].start
 //@ loop 3 invariant [trim-right-keeps-field] fpos[len(fpos)-1].end <= hi && hi <= len(runes) && 0 <= lo && lo <= fpos[0].start
 //@ loop 4 invariant [all-closed] all(k, 0, len(fpos), 0 <= fpos[k].start && fpos[k].start <= fpos[k].end && fpos[k].end <= len(runes))
-//@ loop 4 invariant [disjoint] all(k, 0, len(fpos)-1, fpos[k].end <= fpos[k+1].start)
+//@ loop 4 invariant [disjoint] all(k, 1, len(fpos), fpos[k-1].end <= fpos[k].start)
 //@ ensures [at-most-n] implies(n >= 1, len(result) <= n)
